@@ -300,7 +300,7 @@ def run(ctx: Ctx) -> int:
     ml = ctx.pick(3, 4)
     cfg = ctx.rundir / "mc.cfg"
     cfg.write_text(f"CONSTANT MaxLegs = {ml}\nCONSTANT ResultCodes <- MC_Codes\nCONSTANT ServerTokens <- MC_Toks\nINIT Init\nNEXT Next\n"
-                   "INVARIANT TokensRelayed\nINVARIANT ServerTokensFed\nINVARIANT StopsWhenComplete\nINVARIANT RequestOnlyOnAccepted\n"
+                   "INVARIANT TokensRelayed\nINVARIANT NoEmptyAlter\nINVARIANT ServerTokensFed\nINVARIANT StopsWhenComplete\nINVARIANT RequestOnlyOnAccepted\n"
                    "INVARIANT SignHeader\nINVARIANT FailClosed\nINVARIANT NoRequestAfterRejection\nINVARIANT BoundedExchange\nCHECK_DEADLOCK FALSE\n")
     r = run_tlc("MC_RpcBind", str(cfg), rundir=ctx.rundir, tag="mc")
     require_ok(r, "RpcBind model check")
